@@ -98,3 +98,25 @@ Fixpoint join_strs (sep : list N) (l : list (list N)) : list N :=
 
 Definition contentlines_to_ical (ls : list (list N)) : list N :=
   join_strs [13; 10] (map foldline (filter nonempty ls)) ++ [13; 10].
+
+(* ------------------------------------------------------------------ guards used by C05 *)
+(* everything of a rendered line up to and including the colon that starts the value *)
+Definition head_of (name : list N) (ps : params) (sorted : bool) : list N :=
+  match ps with
+  | [] => name ++ [58]
+  | _ => name ++ 59 :: params_to_ical sorted ps ++ [58]
+  end.
+(* the patterns parts() replaces before it scans, and the placeholders it expands afterwards *)
+Definition forb_esc : list (list N) := map fst escape_string_chain.
+Definition forb_unesc : list (list N) := map fst unescape_string_chain.
+(* the parameter section contains no backslash-delimiter pair (the final colon included) *)
+Definition head_safe (name : list N) (ps : params) (sorted : bool) : bool :=
+  avoids forb_esc (head_of name ps sorted).
+Definition pval_strs (v : pval) : list (list N) := match v with PStr s => [s] | PList l => l end.
+(* no parameter value contains placeholder text (%2C %3A %3B %5C) *)
+Definition params_unesc_safe (ps : params) : bool :=
+  forallb (fun kv : list N * pval => forallb (fun s => avoids forb_unesc (dq_clean s)) (pval_strs (snd kv))) ps.
+(* simple sufficient condition: no backslash and no percent sign anywhere in the parameters *)
+Definition params_plain (ps : params) : bool :=
+  forallb (fun kv : list N * pval => forallb (fun s => no_chr 92 s && no_chr 37 s) (pval_strs (snd kv))) ps.
+Definition value_safe (v : list N) : bool := avoids (forb_esc ++ forb_unesc) v.
